@@ -18,15 +18,16 @@ const ID: [[f64; 3]; 3] = [[1.0, 0.0, 0.0], [0.0, 1.0, 0.0], [0.0, 0.0, 1.0]];
 const EPOCH: f64 = 2000.0;
 fn any_epoch() -> f64 {
     let k: u8 = kani::any();
-    kani::assume(k < 3);
+    kani::assume(k < 4);
     match k {
         0 => 2000.0,
         1 => 2001.0,
-        _ => 2004.0,
+        2 => 2004.0,
+        _ => f64::NAN, // a tuple without epoch (2D/3D data): its result must be NaN, not that of a neighbour's epoch
     }
 }
 
-//@h {"id":"C07.K.helmert.epoch","props":["C07","C02"],"tier":"quick","kind":"bounded","bound":"3 tuples; epochs chosen symbolically (in any order, with repeats) from {t_epoch, t_epoch+1, t_epoch+4}; coordinates: probe tuples; parameters: power-of-two probes T, DT, S, DS","timeout":900,"text":"translation+scale rates, no rotation: tuple i of a mixed-epoch set is transformed with T + (t_i - t_epoch)*DT and S + (t_i - t_epoch)*DS, bit-exact, in both directions -- i.e. batch == singletons; 4th coordinate untouched; count = n"}
+//@h {"id":"C07.K.helmert.epoch","props":["C07","C02"],"tier":"quick","kind":"bounded","bound":"3 tuples; epochs chosen symbolically (in any order, with repeats) from {t_epoch, t_epoch+1, t_epoch+4, NaN}; coordinates: probe tuples; parameters: power-of-two probes T, DT, S, DS","timeout":900,"text":"translation+scale rates, no rotation: tuple i of a mixed-epoch set is transformed with T + (t_i - t_epoch)*DT and S + (t_i - t_epoch)*DS, bit-exact, in both directions -- i.e. batch == singletons; 4th coordinate untouched; count = n"}
 #[kani::proof]
 #[kani::unwind(20)]
 #[kani::stub(crate::op::ParsedParameters::boolean, stub_boolean)]
@@ -66,7 +67,8 @@ fn c07_helmert_epoch() {
         [s * xyz[i][0] + tx, s * xyz[i][1] + ty, s * xyz[i][2] + tz]
     };
     assert!(same(data[i][0], e[0]) && same(data[i][1], e[1]) && same(data[i][2], e[2]), "C07.K.helmert.epoch: every tuple is transformed with the parameters evaluated at its own epoch (P + (t - t_epoch)*dP)");
-    assert!(beq(data[i][3], t[i]), "C07.K.helmert.frame: the fourth coordinate is untouched");
+    assert!(same(data[i][3], t[i]), "C07.K.helmert.frame: the fourth coordinate is untouched");
+    kani::cover!(t[1].is_nan() && t[0] == 2001.0, "a tuple without epoch following a tuple with one is reachable");
     kani::cover!(t[0] == 2004.0 && t[1] == 2000.0 && t[2] == 2001.0, "mixed epochs with the reference epoch in the middle reachable");
 }
 
